@@ -24,7 +24,7 @@ fn needs_cluster(raw: u64, cb: u32, has_back: bool) -> bool {
 // @harness c01_multi_write_mapping
 // @props C01 C03 C18
 // @tier quick
-// @cost 200
+// @cost 206
 // @timeout 2400
 // @needs M0
 // @desc the whole body of __make_multiple_write_mapping (lookups, lock and allocator shimmed; the allocator may grant fewer clusters than asked): the batch never leaves the L2 slice it started in; for the clusters it processed, in guest order, exactly those that need a fresh cluster are mapped to COPIED | (granted start + j*cluster_size) with j counting the mapped clusters so far, never more than were granted; copy-on-write sources and in-place clusters keep their entry; one entry is reported per processed cluster and equals what the slice now holds; unprocessed entries are untouched; every mapped host cluster is registered as new; slice dirty + need_flush iff something was mapped
